@@ -263,29 +263,47 @@ Proof.
   intros i k0 r k b0 n0 bid0 b n bid H1 H2 H3 H4 H5 H6. apply decompose_of_validate_refused.
   eapply validate_refused_of_group; eauto. eapply dq_group_mismatch; eauto.
 Qed.
+(* 50945eb: a TwoQubitQPDGate at any position k of a two-element decomposition g *)
+Theorem c18_dq_two_in_pair : forall i g k,
+  ids_in_range (dq_circ i) (dq_ids i) -> In g (dq_ids i) -> length g = 2 -> In k g -> In k (dq_two i) ->
+  api_decompose i = Refused.
+Proof.
+  intros i g k H1 H2 H3 H4 H5. apply decompose_of_validate_refused.
+  eapply validate_refused_of_group; eauto. eapply dq_group_two; eauto.
+  unfold dq_is_two. apply existsb_exists. exists k. split; [exact H5 | apply Nat.eqb_refl].
+Qed.
+(* 50945eb: an instruction index given twice, at any two positions a < b of the flattened instruction_ids
+   (inside one decomposition or in two) *)
+Theorem c18_dq_repeated_index : forall i a b,
+  ids_in_range (dq_circ i) (dq_ids i) -> a < b -> b < length (concat (dq_ids i)) ->
+  nth a (concat (dq_ids i)) 0 = nth b (concat (dq_ids i)) 0 -> api_decompose i = Refused.
+Proof.
+  intros i a b H1 H2 H3 H4. apply decompose_of_validate_refused. apply dq_repeated_refused; [exact H1|].
+  exact (has_dup_nth _ a b H2 H3 H4).
+Qed.
 Theorem c18_dq_total : forall i,
   ids_in_range (dq_circ i) (dq_ids i) -> dq_total_mismatch (dq_circ i) (dq_ids i) = true -> api_decompose i = Refused.
 Proof. intros i H1 H2. apply decompose_of_validate_refused. now apply dq_total. Qed.
 Theorem c18_dq_map_count : forall i ms,
-  api_validate_qpd (dq_circ i) (dq_ids i) = Proceeds -> dq_maps i = Some ms ->
+  dq_validate i = Proceeds -> dq_maps i = Some ms ->
   length (dq_ids i) <> length ms -> api_decompose i = Refused.
 Proof. exact dq_map_count. Qed.
 (* map index outside the basis: the j-th map id, for any gate k of the j-th decomposition *)
 Theorem c18_dq_map_range : forall i ms j k b n bid z,
-  api_validate_qpd (dq_circ i) (dq_ids i) = Proceeds -> dq_maps i = Some ms ->
+  dq_validate i = Proceeds -> dq_maps i = Some ms ->
   j < length (dq_ids i) -> In k (nth j (dq_ids i) []) -> nth_error (dq_circ i) k = Some (DQ b n bid) ->
   nth j ms None = Some z -> (z < 0 \/ Z.of_nat n <= z)%Z ->
   api_decompose i = Refused.
 Proof. exact dq_map_range. Qed.
 (* a None ENTRY of map_ids is refused by the same pre-validation *)
 Theorem c18_dq_map_none : forall i ms j k b n bid,
-  api_validate_qpd (dq_circ i) (dq_ids i) = Proceeds -> dq_maps i = Some ms ->
+  dq_validate i = Proceeds -> dq_maps i = Some ms ->
   j < length (dq_ids i) -> In k (nth j (dq_ids i) []) -> nth_error (dq_circ i) k = Some (DQ b n bid) ->
   nth j ms None = None -> api_decompose i = Refused.
 Proof. exact dq_map_none. Qed.
 (* map_ids omitted and some gate (any position k) has no basis_id: refused before any rewriting *)
 Theorem c18_dq_unset_no_maps : forall i k b n,
-  api_validate_qpd (dq_circ i) (dq_ids i) = Proceeds -> dq_maps i = None ->
+  dq_validate i = Proceeds -> dq_maps i = None ->
   nth_error (dq_circ i) k = Some (DQ b n None) ->
   api_decompose i = Refused /\ dq_final i = dq_circ i.
 Proof. exact dq_unset_no_maps. Qed.
@@ -320,7 +338,7 @@ Theorem c18_dq_frame : forall i,
   api_decompose i <> Proceeds -> dq_covers (dq_circ i) (dq_ids i) -> dq_final i = dq_circ i.
 Proof. exact dq_frame. Qed.
 Theorem c18_dq_valid : forall i ms,
-  api_validate_qpd (dq_circ i) (dq_ids i) = Proceeds -> dq_maps i = Some ms ->
+  dq_validate i = Proceeds -> dq_maps i = Some ms ->
   length (dq_ids i) = length ms -> dq_check (dq_circ i) (combine (dq_ids i) ms) = true ->
   existsb dq_unset (dq_assign (dq_circ i) (combine (dq_ids i) ms)) = false ->
   api_decompose i = Proceeds /\ dq_final i = dq_assign (dq_circ i) (combine (dq_ids i) ms).
@@ -403,28 +421,27 @@ Definition cxd : gate_desc := mkGD true false true true true.       (* cx *)
 Definition rzz_unbound : gate_desc := mkGD true true false true true.
 Definition ccxd : gate_desc := mkGD false false true false true.
 (* F7 witness: two CX placeholders, map ids [0; 9] *)
-Definition f7_input : dq_in := mkDq [DQ 0 6 None; DQ 0 6 None] [[0]; [1]] (Some [Some 0; Some 9]%Z).
+Definition f7_input : dq_in := mkDq [DQ 0 6 None; DQ 0 6 None] [[0]; [1]] (Some [Some 0; Some 9]%Z) [0; 1].
 (* the reviewer's inputs: a None entry; no map_ids with an unset id on the later gate *)
 Example c18_ex_map_none :
-  let i := mkDq [DQ 0 6 None; DQ 0 6 None] [[0]; [1]] (Some [Some 0%Z; None]) in
+  let i := mkDq [DQ 0 6 None; DQ 0 6 None] [[0]; [1]] (Some [Some 0%Z; None]) [0; 1] in
   api_decompose i = Refused /\ dq_final i = dq_circ i.
 Proof. split; reflexivity. Qed.
 Example c18_ex_unset_later :
-  let i := mkDq [DQ 0 6 (Some 2); DQ 0 6 None] [[0]; [1]] None in
+  let i := mkDq [DQ 0 6 (Some 2); DQ 0 6 None] [[0]; [1]] None [0; 1] in
   api_decompose i = Refused /\ dq_final i = dq_circ i.
 Proof. split; reflexivity. Qed.
-(* why c18_dq_frame needs coverage: duplicate indices pass the count check and leave gate 1 unset *)
-Example c18_ex_duplicate_ids_break_frame :
-  let i := mkDq [DQ 0 6 None; DQ 0 6 None] [[0]; [0]] (Some [Some 1%Z; Some 2%Z]) in
-  api_decompose i = Refused /\ dq_final i = [DQ 0 6 (Some 2); DQ 0 6 None].
+(* repeated indices pass the count check but are refused since 50945eb, before anything is assigned;
+   a TwoQubitQPDGate paired with another gate likewise *)
+Example c18_ex_duplicate_ids :
+  let i := mkDq [DQ 0 6 None; DQ 0 6 None] [[0]; [0]] (Some [Some 1%Z; Some 2%Z]) [0; 1] in
+  api_decompose i = Refused /\ dq_final i = dq_circ i.
 Proof. split; reflexivity. Qed.
-Example c18_ex_f7_repaired : api_decompose f7_input = Refused /\ dq_final f7_input = dq_circ f7_input.
-Proof. split; reflexivity. Qed.
-(* the interleaved (unrepaired) loop refuses too, but has already set gate 0's basis_id *)
-Example c18_f7_interleaved_breaks_frame :
-  fst (dq_run_interleaved f7_input) = Refused /\
-  snd (dq_run_interleaved f7_input) = [DQ 0 6 (Some 0); DQ 0 6 None].
-Proof. split; reflexivity. Qed.
+Example c18_ex_two_in_pair :
+  let i := mkDq [DQ 0 6 None; DQ 0 6 None; DOther] [[0; 1]] (Some [Some 1%Z]) [0] in
+  api_decompose i = Refused /\ dq_final i = dq_circ i /\
+  api_decompose (mkDq [DQ 0 6 None; DQ 0 6 None; DOther] [[0; 1]] (Some [Some 1%Z]) []) = Proceeds.
+Proof. repeat split; reflexivity. Qed.
 (* F12 witness: cx(0,1); ccx(0,1,2) with labels A B C *)
 Definition f12_input : pcq_in :=
   mkPcq 3 [Some 0; Some 1; Some 2] [mkG (KOp cxd) [0; 1]; mkG (KOp ccxd) [0; 1; 2]].
@@ -521,6 +538,8 @@ Example guards_validate_qpd : guards_of "qpd.decompose:_validate_qpd_instruction
    "not isinstance(circuit.data[decomp_ids[0]].operation, BaseQPDGate)";
    "not isinstance(circuit.data[gate_id].operation, BaseQPDGate)";
    "compare_basis != tmp_basis";
+   "len(decomp_ids) == 2 and isinstance(circuit.data[gate_id].operation, TwoQubitQPDGate)";
+   "len(set(flat_ids)) != len(flat_ids)";
    "qpd_gate_total != num_qpd_gates"].
 Proof. reflexivity. Qed.
 Example guards_decompose_internal : guards_of "qpd.decompose:_decompose_qpd_instructions" =
